@@ -176,7 +176,8 @@ CLAIMS["C36"] = {
             "log-formatting branches (log_writer is None). The output channel is a CONTRACT DOUBLE of dfir_rs::util::unsync::mpsc (try_send appends and "
             "returns Ok) because the real channel is outside CBMC's reach (C16). Bounds: queue length <= 3 (<= 2 per input for merges), <= 3 hooks; "
             "quick leaves out the three MergeOrderedHook harnesses with two non-empty inputs (3-4 min each), which are in thorough; TopLevelFoldHook with 2 queued items "
-            "exceeds 15 min of CBMC and is in no tier (0 and 1 items are covered).",
+            "exceeds 20 min of CBMC under the havoc driver; it is covered instead by 8 harnesses with a SCRIPTED driver that enumerate every decision "
+            "sequence the hook can consume for two items (two include/exclude answers, one Fisher-Yates index), items symbolic.",
     "technique": "contract-based verification: Kani bounded harness contracts on the real hook code (whole file extracted mechanically), havoc driver and havoc hooks as callee contracts",
     "design": "DESIGN.md §5 C36, §14",
 }
